@@ -6,6 +6,7 @@ import (
 
 	"google.golang.org/protobuf/proto"
 	"google.golang.org/protobuf/reflect/protoreflect"
+	"google.golang.org/protobuf/zverif/corpus"
 	"google.golang.org/protobuf/zverif/gen"
 	"google.golang.org/protobuf/zverif/mcase"
 	"google.golang.org/protobuf/zverif/model"
@@ -22,6 +23,8 @@ type mergeCase struct {
 }
 
 var eq = model.EqualOpts{BitwiseFloats: true}
+
+var lazyTypes = corpus.LazyCapable()
 
 func checkMerge(c mergeCase) error {
 	md := c.Desc()
@@ -90,6 +93,19 @@ func checkMerge(c mergeCase) error {
 	if d := model.Diff(md, want, model.Snapshot(m4), eq, nil); d != "" {
 		return fmt.Errorf("Unmarshal(x||y) (x %v, y %v) differs from Merge(Unmarshal x, Unmarshal y): %s", c.Labels, c.LabelsB, d)
 	}
+	// (6) destination obtained by (lazy) decoding and not touched before the Merge
+	d6 := mcase.New(c.Type, c.Dynamic)
+	if err := uo.Unmarshal(c.Wire, d6.Interface()); err != nil {
+		return fmt.Errorf("Unmarshal(x) failed: %v", err)
+	}
+	s6 := mcase.New(c.Type, c.Dynamic)
+	if err := uo.Unmarshal(c.WireB, s6.Interface()); err != nil {
+		return fmt.Errorf("Unmarshal(y) failed: %v", err)
+	}
+	proto.Merge(d6.Interface(), s6.Interface())
+	if d := model.Diff(md, want, model.Snapshot(d6), eq, nil); d != "" {
+		return fmt.Errorf("Merge(Unmarshal(x), Unmarshal(y)) (lazy=%v, destination untouched before the merge) differs from the model merge: %s", c.Lazy, d)
+	}
 	// (5) merging into an empty message is a copy
 	e := mcase.New(c.Type, c.Dynamic)
 	proto.Merge(e.Interface(), b.Interface())
@@ -148,7 +164,13 @@ func TestMerge(t *testing.T) {
 		Name: "merge",
 		Rule: "a from the descriptor-directed generator over all linked types (generated or dynamicpb); b = small independent draw plus, for each field of a with probability 1/2, the same field with a fresh value (recursively in singular submessages; maps with the same keys half of the time; oneofs switched). non-trivial = a and b share >= 1 populated singular field and >= 1 map key, list, oneof switch or nested message collision",
 		Draw: func(t *rapid.T) mergeCase {
-			c := mergeCase{Case: mcase.Draw(t, nil, nil, gen.DefaultMsgOpts, model.AllPerturbations), Lazy: rapid.Bool().Draw(t, "lazy")}
+			var c mergeCase
+			if len(lazyTypes) > 0 && rapid.IntRange(0, 3).Draw(t, "lazytype") == 0 {
+				c = mergeCase{Case: mcase.Draw(t, lazyTypes, lazyTypes, gen.DefaultMsgOpts, model.AllPerturbations), Lazy: rapid.IntRange(0, 3).Draw(t, "lazy") > 0}
+				c.Dynamic = false
+			} else {
+				c = mergeCase{Case: mcase.Draw(t, nil, nil, gen.DefaultMsgOpts, model.AllPerturbations), Lazy: rapid.Bool().Draw(t, "lazy")}
+			}
 			md := c.Desc()
 			c.B = gen.DrawColliding(t, md, c.M, gen.DefaultMsgOpts)
 			o := model.AllPerturbations
